@@ -334,3 +334,84 @@ _VALID = ("(self._map_mode(mode_1) < self.__n_modes and self._map_mode(mode_1) !
 BS.raises = {k: v.replace("VALIDMODES", _VALID) for k, v in BS.raises.items()}
 
 CONTRACTS += [PS, LOSS, HERALD, BS]
+
+
+# ---------------------------------------------------------------------------------------------- _add_empty_mode (C02)
+SHIFT = "(x + 1 if x >= mode else x)"
+
+
+def _shifted(d_new, d_old):
+    """herald map d_new is d_old with every key x replaced by x + [x >= mode]: same values, same insertion order"""
+    return (f"len({d_new}) == len({d_old}) and forall(t, implies(0 <= t and t < len({d_old}), "
+            f"key_at({d_new}, t) == (key_at({d_old}, t) + 1 if key_at({d_old}, t) >= mode else key_at({d_old}, t)) and "
+            f"at({d_new}, key_at({d_new}, t)) == at({d_old}, key_at({d_old}, t))))")
+
+
+def replay_aem(inp):
+    import lightworks as lw
+    s = inp["self"]
+    n = s["_Circuit__n_modes"]
+    mode = inp["mode"]
+    if not (1 <= n <= 10 and 0 <= mode <= n):
+        return None
+    c = lw.Circuit(n)
+    names = ["_Circuit__in_heralds", "_Circuit__out_heralds", "_Circuit__external_in_heralds", "_Circuit__external_out_heralds"]
+    for nm in names:
+        setattr(c, nm, {k: v for k, v in s[nm]["dict"]})
+    c._Circuit__internal_modes = list(s["_Circuit__internal_modes"])
+    before = {nm: list(getattr(c, nm).items()) for nm in names}
+    internal = list(c._internal_modes)
+    c._add_empty_mode([], mode)
+    sh = lambda x: x + 1 if x >= mode else x  # noqa: E731
+    for nm in names:
+        want = [(sh(k), v) for k, v in before[nm]]
+        if list(getattr(c, nm).items()) != want:
+            return f"_add_empty_mode(mode={mode}): {nm} = {list(getattr(c, nm).items())}, expected {want} (same order, keys shifted)"
+    if c.n_modes != n + 1 or list(c._internal_modes) != [sh(x) for x in internal]:
+        return f"_add_empty_mode(mode={mode}): n_modes {c.n_modes}, internal {c._internal_modes}"
+    return None
+
+
+def enum_aem():
+    import itertools
+    for n in (2, 3, 4):
+        for keys in itertools.permutations(range(n), 2):
+            for mode in range(0, n + 1):
+                d = {"dict": [[keys[0], 1], [keys[1], 0]]}
+                d2 = {"dict": [[keys[1], 1], [keys[0], 0]]}
+                yield {"self": {"_Circuit__n_modes": n, "_Circuit__internal_modes": list(keys), "_Circuit__in_heralds": d, "_Circuit__out_heralds": d2,
+                                "_Circuit__external_in_heralds": {"dict": []}, "_Circuit__external_out_heralds": d}, "mode": mode}
+
+
+AEM_SPEC = Contract(
+    target="lightworks/sdk/circuit/circuit_utils.py:add_empty_mode_to_circuit_spec",
+    types={"circuit_spec": "glist", "mode": "int"},
+    requires=[], ensures={}, raises=None, modifies=[], pure=True, result_type="glist",
+    props=[],
+)
+AEM = Contract(
+    target=f"{CIRC}:Circuit._add_empty_mode",
+    types={"self": CIRCUIT, "circuit_spec": "glist", "mode": "int"},
+    requires=["mode >= 0"],
+    modifies=["self.__n_modes", "self.__in_heralds", "self.__out_heralds", "self.__external_in_heralds", "self.__external_out_heralds", "self.__internal_modes"],
+    loops={"getattr(self, '_Circuit' + tm).items()": Loop(invariant=[
+        "len(new_heralds) == _k",
+        "forall(t, implies(0 <= t and t < _k, key_at(new_heralds, t) == (key_at(getattr(self, '_Circuit' + tm), t) + 1 if key_at(getattr(self, '_Circuit' + tm), t) >= mode "
+        "else key_at(getattr(self, '_Circuit' + tm), t)) and at(new_heralds, key_at(new_heralds, t)) == at(getattr(self, '_Circuit' + tm), key_at(getattr(self, '_Circuit' + tm), t))))",
+        "forall(x, implies(x in new_heralds, 0 <= pos_of(new_heralds, x) and pos_of(new_heralds, x) < _k and key_at(new_heralds, pos_of(new_heralds, x)) == x))",
+    ])},
+    ensures={
+        "one_more_mode": "self.__n_modes == old(self.__n_modes) + 1",
+        "in_heralds_shifted": _shifted("self.__in_heralds", "old(self.__in_heralds)"),
+        "out_heralds_shifted": _shifted("self.__out_heralds", "old(self.__out_heralds)"),
+        "external_in_shifted": _shifted("self.__external_in_heralds", "old(self.__external_in_heralds)"),
+        "external_out_shifted": _shifted("self.__external_out_heralds", "old(self.__external_out_heralds)"),
+        "internal_shifted": "len(self.__internal_modes) == len(old(self.__internal_modes)) and forall(t, implies(0 <= t and t < len(self.__internal_modes), "
+                            "at(self.__internal_modes, t) == (at(old(self.__internal_modes), t) + 1 if at(old(self.__internal_modes), t) >= mode else at(old(self.__internal_modes), t))))",
+    },
+    raises={},
+    replay=replay_aem,
+    props=["C02"],
+)
+AEM.enum = enum_aem
+CONTRACTS += [AEM_SPEC, AEM]
